@@ -1,5 +1,7 @@
 #include "ccl/semantic/rsValuesFacet.h"
 
+#include <algorithm>
+
 #include "ccl/semantic/RSModel.h"
 
 namespace ccl::semantic {
@@ -108,7 +110,11 @@ bool rsValuesFacet::SetBasicText(const EntityUID target, const TextInterpretatio
   } else if (!IsBaseSet(core.GetRS(target).type)) {
     return false;
   } else {
-    const auto dataChange = std::ssize(newInterp) != std::ssize(*TextFor(target));
+    const auto* oldInterp = TextFor(target);
+    const auto dataChange = !std::equal(
+      std::begin(newInterp), std::end(newInterp), std::begin(*oldInterp), std::end(*oldInterp),
+      [](const auto& lhs, const auto& rhs) noexcept { return lhs.first == rhs.first; }
+    );
     if (!SetTextInternal(target, newInterp)) {
       return false;
     } else {
